@@ -3,6 +3,7 @@ package checks
 import (
 	"fmt"
 	"path"
+	"regexp"
 	"sort"
 	"strings"
 
@@ -16,15 +17,18 @@ import (
 // The current schema is the against schema after several path-preserving edits (C03-style
 // operators at the model level), spread over all modules so that import-only files change too.
 
+var c06DeletedFileRE = regexp.MustCompile(`^Previously present file "([^"]+)" was deleted\.$`)
+
 type c06BreakingEdit struct {
 	ID string
 }
 
 // c06MakeBreaking applies up to n edits; each is kept only if the workspace still compiles.
-func c06MakeBreaking(env *c06Env, against *gen.Schema, n int) (*gen.Schema, []string) {
+func c06MakeBreaking(env *c06Env, against *gen.Schema, n int) (*gen.Schema, []string, []string) {
 	c, ctx := env.c, env.ctx
 	cur := against
 	var applied []string
+	var moved []string // full names of messages that were moved to another file of their package
 	try := func(id string, edit func(s *gen.Schema) bool) {
 		s := cur.Clone()
 		if !edit(s) {
@@ -48,7 +52,60 @@ func c06MakeBreaking(env *c06Env, against *gen.Schema, n int) (*gen.Schema, []st
 		return e.Kind == "field" && e.Field.Kind == "scalar" && len(e.Field.Options) == 0 && e.Field.Default == ""
 	}
 	for i := 0; i < n; i++ {
-		switch c.Rand.IntN(9) {
+		switch c.Rand.IntN(10) {
+		case 9:
+			// a top-level message moves to another file of the same package (same module, same syntax) and one
+			// of its fields changes type: the annotation lies in the new file, its against-location in the old
+			// one — ignore / ignore_only paths apply to both
+			var name string
+			try("message-moved-and-changed", func(s *gen.Schema) bool {
+				type cand struct {
+					from, to *gen.File
+					m        *gen.Message
+				}
+				var cands []cand
+				for _, mod := range s.Modules {
+					for _, x := range mod.Files {
+						for _, y := range mod.Files {
+							if x == y || x.Package != y.Package || x.Syntax != y.Syntax || x.Package == "" {
+								continue
+							}
+							for _, m := range x.Messages {
+								for _, fl := range m.Fields {
+									if fl.Kind == "scalar" && len(fl.Options) == 0 && fl.Default == "" && (fl.Type == "int32" || fl.Type == "string" || fl.Type == "bool") {
+										cands = append(cands, cand{x, y, m})
+										break
+									}
+								}
+							}
+						}
+					}
+				}
+				if len(cands) == 0 {
+					return false
+				}
+				cd := cands[c.Rand.IntN(len(cands))]
+				var rest []*gen.Message
+				for _, m := range cd.from.Messages {
+					if m != cd.m {
+						rest = append(rest, m)
+					}
+				}
+				cd.from.Messages = rest
+				cd.to.Messages = append(cd.to.Messages, cd.m)
+				for _, fl := range cd.m.Fields {
+					if fl.Kind == "scalar" && len(fl.Options) == 0 && fl.Default == "" && (fl.Type == "int32" || fl.Type == "string" || fl.Type == "bool") {
+						fl.Type = map[string]string{"int32": "int64", "string": "bytes", "bool": "uint32"}[fl.Type]
+						break
+					}
+				}
+				name = cd.from.Package + "." + cd.m.Name
+				return true
+			})
+			if len(applied) > 0 && applied[len(applied)-1] == "message-moved-and-changed" && name != "" {
+				moved = append(moved, name)
+				applied[len(applied)-1] = "message-moved-and-changed#" + name // distinct entries
+			}
 		case 0:
 			try("field-deleted", func(s *gen.Schema) bool {
 				e := pick(s, func(e *c05Elem) bool { return plainField(e) && len(e.Msg.Fields) > 1 && e.Field.Oneof == "" })
@@ -161,22 +218,61 @@ func c06MakeBreaking(env *c06Env, against *gen.Schema, n int) (*gen.Schema, []st
 			})
 		}
 	}
-	return cur, applied
+	return cur, applied, dedup(moved)
 }
 
 func c06BreakingPart(env *c06Env, clean *gen.Schema, idx int) {
 	c, ctx, version := env.c, env.ctx, env.version
 	against := clean
-	current, applied := c06MakeBreaking(env, against, c.Pick(14, 22))
+	current, applied, moved := c06MakeBreaking(env, against, c.Pick(14, 22))
 	if len(applied) < 2 {
 		c.Count("breaking_pairs_too_similar", 1)
 		return
 	}
 	ar, cr := against.Render(), current.Render()
 	nMod := len(current.Modules)
+	// againstPath: the file of the against-location of an annotation when it differs from the annotation's own
+	// file — annotations inside a message that moved between files of its package
+	type movedSpan struct {
+		file        string
+		from, to    int
+		againstFile string
+	}
+	var movedSpans []movedSpan
+	{
+		oldIdx := against.TypeIndex()
+		for _, name := range moved {
+			sp := cr.Span("message", name)
+			ti, ok := oldIdx[name]
+			if sp == nil || !ok || ti.File.Path == sp.File {
+				continue
+			}
+			from := sp.StartLine
+			if sp.CommentLine > 0 && sp.CommentLine < from {
+				from = sp.CommentLine
+			}
+			movedSpans = append(movedSpans, movedSpan{sp.File, from, sp.EndLine, ti.File.Path})
+			c.Count("breaking_moved_messages", 1)
+		}
+	}
+	againstPath := func(a lintAnn) string {
+		// an annotation about a deleted file has no location of its own; its against-location is that file
+		if a.Path == "" && a.Rule == "FILE_NO_DELETE" {
+			if m := c06DeletedFileRE.FindStringSubmatch(a.Msg); m != nil {
+				return m[1]
+			}
+		}
+		for _, ms := range movedSpans {
+			if a.Path == ms.file && a.Line >= ms.from && a.Line <= ms.to {
+				return ms.againstFile
+			}
+		}
+		return ""
+	}
 	type pair struct{ cur, old bufimage.Image }
 	pairs := make([]pair, nMod)
 	importOnly := make([]map[string]bool, nMod)
+	importOnlyOld := make([]map[string]bool, nMod)
 	for mi := range current.Modules {
 		ci, err1 := c05ModuleImage(ctx, current, cr, mi, nil)
 		oi, err2 := c05ModuleImage(ctx, against, ar, mi, nil)
@@ -186,6 +282,7 @@ func c06BreakingPart(env *c06Env, clean *gen.Schema, idx int) {
 		}
 		pairs[mi] = pair{ci, oi}
 		importOnly[mi] = importOnlyPaths(ci)
+		importOnlyOld[mi] = importOnlyPaths(oi)
 	}
 	pluginOpt := bufcheck.WithPluginConfigs(env.pc)
 	base := make([]map[string][]lintAnn, nMod)
@@ -229,6 +326,24 @@ func c06BreakingPart(env *c06Env, clean *gen.Schema, idx int) {
 		cfg := c06GenConfig(c.Rand, t, "breaking", version, current, nMod, plugin, "")
 		if ci%15 == 4 {
 			c06Bogus(c.Rand, cfg, c06Pools(t, "breaking"))
+		} else if len(movedSpans) > 0 && ci%6 == 1 {
+			// designed: the old file of a moved message is ignored, for every rule or for the type rules only
+			ms := movedSpans[c.Rand.IntN(len(movedSpans))]
+			if ci%12 == 1 {
+				cfg.Ignore = antichain(append(cfg.Ignore, ms.againstFile))
+				cfg.feature("ignore")
+			} else {
+				if cfg.IgnoreOnly == nil {
+					cfg.IgnoreOnly = map[string][]string{}
+				}
+				for _, id := range []string{"FIELD_SAME_TYPE", "FIELD_WIRE_COMPATIBLE_TYPE", "FIELD_WIRE_JSON_COMPATIBLE_TYPE"} {
+					if r := t.rule(id); r != nil && r.Type == "breaking" {
+						cfg.IgnoreOnly[id] = antichain(append(cfg.IgnoreOnly[id], ms.againstFile))
+					}
+				}
+				cfg.feature("ignore_only-rule")
+			}
+			cfg.feature("against-location-of-moved-message")
 		}
 		excludeImports := c.Rand.IntN(2) == 0
 		if excludeImports {
@@ -288,7 +403,17 @@ func c06BreakingPart(env *c06Env, clean *gen.Schema, idx int) {
 			c.Violation("breaking-failed", key, fmt.Sprintf("%s: Breaking failed: %v (the model selects %d rules)", describe, bErr, len(sel)), detail())
 			continue
 		}
-		want, err := c06Expected(t, "breaking", cfg, sel, baseline(cfg.Module), nil, importOnly[cfg.Module], excludeImports)
+		want, err := c06Expected(t, "breaking", cfg, sel, baseline(cfg.Module), nil, importOnly[cfg.Module], excludeImports, &c06Against{Path: againstPath, ImportOnly: importOnlyOld[cfg.Module]})
+		if err == nil && len(movedSpans) > 0 {
+			// how often the against-location alone decides
+			for _, r := range sel {
+				for _, a := range baseline(cfg.Module)[r] {
+					if ap := againstPath(a); ap != "" && !underPath(a.Path, cfg.Ignore) && underPath(ap, cfg.Ignore) {
+						c.Count("breaking_suppressed_by_against_location_only", 1)
+					}
+				}
+			}
+		}
 		if err != nil {
 			c.Violation("harness-catalogue", key, err.Error(), nil)
 			continue
@@ -342,6 +467,9 @@ func c06BreakingPart(env *c06Env, clean *gen.Schema, idx int) {
 			} else {
 				paths := c06PathPool(current.Modules[cfg.Module])
 				p := paths[c.Rand.IntN(len(paths))]
+				if len(movedSpans) > 0 && c.Rand.IntN(3) == 0 {
+					p = movedSpans[c.Rand.IntN(len(movedSpans))].againstFile
+				}
 				if len(rs) > 0 && rs[0].Path != "" && c.Rand.IntN(3) > 0 {
 					p = rs[c.Rand.IntN(len(rs))].Path
 					if p == "" {
@@ -358,7 +486,12 @@ func c06BreakingPart(env *c06Env, clean *gen.Schema, idx int) {
 				kind = "ignore"
 				// an annotation without a file is decided on its against-location, which the
 				// result does not show: accept its removal
-				inScope = func(a lintAnn) bool { return a.Path == "" || underPath(a.Path, []string{p}) }
+				inScope = func(a lintAnn) bool {
+					if ap := againstPath(a); ap != "" && underPath(ap, []string{p}) {
+						return true
+					}
+					return a.Path == "" || underPath(a.Path, []string{p})
+				}
 			}
 			if _, err := t.selection("breaking", c2.Use, c2.Except); err != nil {
 				continue
